@@ -257,7 +257,8 @@ type Spec struct {
 	Name     string
 	Strategy vivid.SupervisionStrategy
 	Provider bool
-	Plain    bool // do not implement the PreRestart/Restarted/Prelaunch interfaces
+	Options  []vivid.ActorOption // further options handed to ActorOf (e.g. the actor's own default Ask timeout)
+	Plain    bool                // do not implement the PreRestart/Restarted/Prelaunch interfaces
 	OnLaunch func(ctx vivid.ActorContext, p *Probe)
 	OnKill   func(ctx vivid.ActorContext, p *Probe)
 	OnKilled func(ctx vivid.ActorContext, p *Probe, ref vivid.ActorRef)
@@ -432,6 +433,7 @@ func (w *World) actorOptions(spec *Spec, path *string) []vivid.ActorOption {
 	if spec.Strategy != nil {
 		opts = append(opts, vivid.WithActorSupervisionStrategy(spec.Strategy))
 	}
+	opts = append(opts, spec.Options...)
 	if spec.Provider {
 		if path != nil {
 			w.mu.Lock()
